@@ -87,6 +87,7 @@ type vT struct {
 	u      *vstore.Store
 	t1, t2 *Table
 	p1, p2 []byte
+	buf    []byte
 }
 
 func newVT() *vT {
@@ -94,8 +95,17 @@ func newVT() *vT {
 	h.p1, h.p2 = symkv.Bytes("p1", 1, 2), symkv.Bytes("p2", 1, 2)
 	// one arbitrary pre-existing entry in the underlying store (may or may not belong to either table)
 	h.u.M.Set(symkv.Bytes("uk", 1, 3), []byte{1})
-	h.t1, h.t2 = New(h.u, h.p1), New(h.u, h.p2)
+	// the tables get their prefixes as two slices cut from ONE buffer with spare capacity (as a caller
+	// may well pass them): the tables must treat the prefix as read-only; h.p1 / h.p2 stay pristine copies
+	h.buf = make([]byte, 0, 16)
+	h.buf = append(append(h.buf, h.p1...), h.p2...)
+	h.t1, h.t2 = New(h.u, h.buf[:len(h.p1)]), New(h.u, h.buf[len(h.p1):len(h.p1)+len(h.p2)])
 	return h
+}
+
+// the caller's prefix buffer still holds p1||p2
+func (h *vT) bufIntact() bool {
+	return bytes.Equal(h.buf[:len(h.p1)+len(h.p2)], append(append([]byte{}, h.p1...), h.p2...))
 }
 
 func (h *vT) disjoint() bool {
@@ -152,6 +162,7 @@ func VerifH_C24_write() {
 	sym.Assert(sym.Implies(h.disjoint(), same), "tables with unrelated prefixes do not observe each other's writes")
 	got2 := vstore.Collect(h.t2.NewIterator(nil, nil))
 	sym.Assert(symkv.EqPairs(got2, after2.Range(nil, nil)), "table 2 iterates its own part of the store")
+	sym.Assert(h.bufIntact(), "a table never writes into the prefix slice it was given")
 	sym.Reach("write")
 }
 
